@@ -7,7 +7,7 @@ set_option linter.unusedSimpArgs false
     types.go GuardedIsAssignable                → `asg`   (identity/Any shortcut, then right-hand decomposition of
                                                    Unit / NotUndef (with fall-through) / Optional / alias / Variant, in that order)
     <X>type.go (t *XType) IsAssignable          → the `.x` arm of `asgRecv`
-    varianttype.go allAssignableTo              → `asgAllR`;  tupleAssignableTo → inlined (`tupTo` comment)
+    varianttype.go allAssignableTo              → `asgAllR`;  tupleAssignableTo → inlined (`if size.hi ≤ 0 then true else if no types then o ⊒ Any else all`)
     tupletype.go IsAssignable(Tuple) loop       → `tupZip`
     structtype.go IsAssignable(Struct)          → `structMember` / `structAll`;  IsAssignable(Hash) (the by-specification
                                                    exempt rule of C01) → guarded by the flag `sfh` (`sfh = true` is the code)
@@ -132,7 +132,7 @@ def asgRecv (a b : Ty) : Bool :=
       (match b with
        | .array e' r' => Rng.pos.sub r' && asg .data e'
        | .tuple ts' g' => Rng.pos.sub (tupleSize ts' g') &&
-           (if ts'.isEmpty && decide (0 < (tupleSize ts' g').hi) then asg .data .any else asgAllR .data ts')
+           (if (tupleSize ts' g').hi ≤ 0 then true else if ts'.isEmpty then asg .data .any else asgAllR .data ts')
        | .hash k' v' r' => Rng.pos.sub r' && asg .str k' && asg .data v'
        | .struct ms' => Rng.pos.sub (structSize ms') && asgMembers .str .data ms'
        | _ => false)
@@ -141,7 +141,7 @@ def asgRecv (a b : Ty) : Bool :=
       (match b with
        | .array e' r' => Rng.pos.sub r' && asg .richData e'
        | .tuple ts' g' => Rng.pos.sub (tupleSize ts' g') &&
-           (if ts'.isEmpty && decide (0 < (tupleSize ts' g').hi) then asg .richData .any else asgAllR .richData ts')
+           (if (tupleSize ts' g').hi ≤ 0 then true else if ts'.isEmpty then asg .richData .any else asgAllR .richData ts')
        | .hash k' v' r' => Rng.pos.sub r' && asgAnyL [.str, .numeric] k' && asg .richData v'
        | .struct ms' => Rng.pos.sub (structSize ms') && asgMembersRichKey ms'
        | _ => false)
@@ -186,7 +186,7 @@ def asgRecv (a b : Ty) : Bool :=
        | .array e' r' => r.sub r' && asg e e'
        | .tuple ts' g' => r.sub (tupleSize ts' g') &&
            -- tupleAssignableTo
-           (if ts'.isEmpty && decide (0 < (tupleSize ts' g').hi) then asg e .any else asgAllR e ts')
+           (if (tupleSize ts' g').hi ≤ 0 then true else if ts'.isEmpty then asg e .any else asgAllR e ts')
        | _ => false)
   | .hash k v r =>
       (match b with
@@ -213,7 +213,7 @@ def asgRecv (a b : Ty) : Bool :=
   | .optional x => asg .undef b || asg x b
   | .notUndef x =>
       (match b with
-       | .notUndef y => asg x y
+       | .notUndef y => asg x y || asg x (.notUndef y)
        | b' => !asg b' .undef && asg x b')
   | .typ x => (match b with | .typ y => asg x y | _ => false)
   | .sensitive x => (match b with | .sensitive y => asg x y | _ => false)
@@ -224,7 +224,7 @@ def asgRecv (a b : Ty) : Bool :=
        | .hash k' v' _ => asg x (.tuple [k', v'] none)
        | .str | .strVal _ | .strSz _ => asg x (.strSz ⟨1, 1⟩)
        | .tuple ts' g' =>
-           (if ts'.isEmpty && decide (0 < (tupleSize ts' g').hi) then asg x .any else asgAllR x ts')
+           (if (tupleSize ts' g').hi ≤ 0 then true else if ts'.isEmpty then asg x .any else asgAllR x ts')
        | .iterable y => asg x y
        | _ => false)
   | .object p =>
